@@ -169,6 +169,37 @@ func (r *histRunner) doGCRequest(op *Op) error {
 			}
 		case <-done: // rejected before reaching the spawn (or pretend)
 		}
+	case "cancelled":
+		// the first pass is held at its very beginning, the operator cancels it and asks again at once: the cancelled pass
+		// is still in progress (it only looks at the flag between files), so the new request must be refused
+		pt.mu.Lock()
+		pt.holdPass = true
+		pt.mu.Unlock()
+		first.begin, first.end, first.err = r.store.GC(bid, op.Begin, op.End, days, op.Merge, op.Pretend)
+		if first.err == nil && !op.Pretend {
+			if e := r.waitEntered(pt); e != nil {
+				close(pt.holdCh)
+				return e
+			}
+			r.store.CancelGC(bid)
+			second.begin, second.end, second.err = r.store.GC(bid, op.Begin, op.End, days, op.Merge, op.Pretend)
+			secondIssued = true
+			r.label("request_after_cancel")
+			accepted := second.err == nil
+			if accepted {
+				time.Sleep(2 * time.Millisecond)
+			}
+			close(pt.holdCh)
+			if accepted {
+				r.waitPasses(pt)
+				return fmt.Errorf("a GC request for bucket %d was accepted while the pass of the previous request, cancelled a moment before, was still in progress (passes started: %d, overlapped: %v)", bid, pt.enters, pt.overlap)
+			}
+		} else {
+			pt.mu.Lock()
+			pt.holdPass = false
+			pt.mu.Unlock()
+			close(pt.holdCh)
+		}
 	case "backtoback":
 		first.begin, first.end, first.err = r.store.GC(bid, op.Begin, op.End, days, op.Merge, op.Pretend)
 		second.begin, second.end, second.err = r.store.GC(bid, op.Begin, op.End, days, op.Merge, op.Pretend)
@@ -384,7 +415,7 @@ var c17Eligibility = &histCheck{
 			op.NoGCDays = rapid.SampledFrom([]int{0, 0, 1, 7, -1, 20000}).Draw(t, "nogcdays")
 			op.Merge = rapid.Bool().Draw(t, "merge")
 			op.Pretend = rapid.IntRange(0, 4).Draw(t, "pretend") == 0
-			op.Double = rapid.SampledFrom([]string{"", "", "", "parked", "backtoback"}).Draw(t, "double")
+			op.Double = rapid.SampledFrom([]string{"", "", "", "parked", "backtoback", "cancelled"}).Draw(t, "double")
 			op.Force = rapid.IntRange(0, 3).Draw(t, "flushfirst") > 0
 			if layered && i == 0 {
 				op.Begin = rapid.SampledFrom([]int{2, 2, 3, 4}).Draw(t, "layeredbegin")
@@ -406,7 +437,7 @@ var c17Eligibility = &histCheck{
 		}}
 	},
 	nontrivial: func(r *histRunner) bool {
-		return r.labels["range_resolved"] || r.labels["double_request_parked"] || r.labels["double_request_backtoback"]
+		return r.labels["range_resolved"] || r.labels["double_request_parked"] || r.labels["double_request_backtoback"] || r.labels["request_after_cancel"]
 	},
 }
 
